@@ -571,6 +571,23 @@ func (it *c10Interp) call(x *ssa.Call, get func(ssa.Value) *cval, depth int) *cv
 		}
 		it.trace = append(it.trace, fmt.Sprintf("%s:kind=%s", it.c.pos(x.Pos()), bb.Name()))
 		return &cval{t: x.Type(), i: big.NewInt(reflectKind[bb.Kind()])}
+	case x.Call.IsInvoke() && (x.Call.Method.Name() == "Bits" || x.Call.Method.Name() == "Size") && x.Call.Method.Pkg() != nil && x.Call.Method.Pkg().Path() == "reflect":
+		recv := get(x.Call.Value)
+		if recv == nil || !recv.refl || recv.dyn == nil || basicOf(recv.dyn) == nil {
+			it.undec = x.Call.Method.Name() + "() of an unknown type at " + it.c.pos(x.Pos())
+			return nil
+		}
+		bits, _, _, okb := it.z.bitsSigned(recv.dyn)
+		if !okb {
+			it.undec = x.Call.Method.Name() + "() of a non-numeric type at " + it.c.pos(x.Pos())
+			return nil
+		}
+		sz := int64(bits)
+		if x.Call.Method.Name() == "Size" {
+			sz /= 8
+		}
+		it.trace = append(it.trace, fmt.Sprintf("%s:%s=%d", it.c.pos(x.Pos()), x.Call.Method.Name(), sz))
+		return &cval{t: x.Type(), i: big.NewInt(sz)}
 	case n == "(reflect.Value).Float":
 		recv := get(x.Call.Args[0])
 		if recv == nil || recv.inner == nil || !recv.inner.isF {
